@@ -54,6 +54,21 @@ theorem C06.serialised_no_interference (cfg : Cfg V) (ref : Nat → V) (p : Plan
   have h := einv_run hd hpc href (V := V) evs
   exact ⟨h.one_open i j hi hj, h.open_snap i hi⟩
 
+/-- THREADING, PARTIAL: an un-serialised run in which no step begins while another step of the shared object is open
+(`QuietBegins`: the hypothesis `NoSharedCfwOverlap` of the design, as a property of the run) is step by step the
+serialised run - hence returns the reference values, like SYNC and MULTIPROCESSING -/
+theorem C06.thread_eq_serialised_partial (cfg : Cfg V) (p : Plan) (evs : List Ev)
+    (hq : QuietBegins cfg p (einit : ESt V) evs) :
+    erun cfg false p einit evs = erun cfg true p einit evs :=
+  (erun_atomic_irrelevant cfg p evs einit hq).symm
+
+theorem C06.thread_result_is_reference_partial (cfg : Cfg V) (ref : Nat → V) (p : Plan) (hd : DisjointOuts p)
+    (hne : NonemptyOuts p) (hpc : ParentsCovered p cfg.parents) (href : IsRef cfg ref) (evs : List Ev)
+    (hq : QuietBegins cfg p (einit : ESt V) evs) (hret : (erun cfg false p einit evs).s.returned = true) :
+    ∀ c ∈ allOuts p, lookup (erun cfg false p einit evs).store c = some (ref c) := by
+  rw [C06.thread_eq_serialised_partial cfg p evs hq] at hret ⊢
+  exact C06.result_is_reference cfg ref p hd hne hpc href evs hret
+
 /-- THREADING (no serialisation): the lost update is a behaviour of the model.  Root a (uuid 10), M computes m=a+1
 (uuid 11), N computes n=a*2 (uuid 12), Z computes z=m+n (uuid 13).  Interleaving begin M, begin N, finish N,
 finish M: M writes back its own copy of the data, dropping column n; Z then computes from a missing column
